@@ -663,6 +663,41 @@ def run(only=None):
             ("encode", lambda: BPTC19696.encode(bitarray(lm)).to01()),
             ("decode_two_errors_with_repair", lambda: BPTC19696.deinterleave_data_bits(bitarray(lerr), True).to01()),
         ], always=rep.thorough(), deadline_s=400.0)
+        hist.picklable_entry_points(s, {n_: getattr(BPTC19696, n_) for n_ in ("encode", "deinterleave_data_bits", "deinterleave_all_bits", "repair_if_necessary")})
+
+        def msg_(i):
+            return format((i * 0x9E3779B97F4A7C15F39CC060 + 1) % (1 << K), f"0{K}b")
+
+        hist.many_distinct_inputs(s, [BPTC19696, _H15, _H13, _mh.HammingCommon, _mb, _mh], [
+            ("encode", lambda i: msg_(i), lambda m_: BPTC19696.encode(bitarray(m_)).to01()),
+            ("decode_one_error", lambda i: spaces.flip(ref_encode(msg_(i)), (INFO_TX[i % 96],)), lambda w_: BPTC19696.deinterleave_data_bits(bitarray(w_), True).to01()),
+        ], always=rep.thorough(), n=20_000, deadline_s=400.0)
+        # the repair switch in every way a caller may pass a true / false value: by position, by name, as 1 / 0, as numpy.bool_
+        import numpy as _np2
+        cwq = ref_encode(lm)
+        for pat in ((), (INFO_TX[2],), (INFO_TX[2], TX[5][12]), (INFO_TX[30], INFO_TX[31])):
+            w_ = spaces.flip(cwq, pat)
+            for form, call_ in (("positional_True", lambda x: BPTC19696.deinterleave_data_bits(x, True)),
+                                ("by_name_True", lambda x: BPTC19696.deinterleave_data_bits(bits=x, repair_if_necessary=True)),
+                                ("positional_1", lambda x: BPTC19696.deinterleave_data_bits(x, 1)),
+                                ("by_name_numpy_bool", lambda x: BPTC19696.deinterleave_data_bits(x, repair_if_necessary=_np2.bool_(True))),
+                                ("default", lambda x: BPTC19696.deinterleave_data_bits(x))):
+                case = {"message": lm, "flipped": list(pat), "repair_switch": form}
+                try:
+                    if call_(bitarray(w_)).to01() != lm:
+                        s.violation(f"decode_with_repair_wrong_when_the_switch_is_given_as:{form}", case)
+                except Exception as e:  # noqa: BLE001
+                    s.violation(f"exception_repair_switch:{form}:" + exc_sig(e), case, repr(e))
+                s.case(nontrivial=True, calls=1, outcome=form)
+            for form, call_ in (("positional_False", lambda x: BPTC19696.deinterleave_data_bits(x, False)),
+                                ("by_name_0", lambda x: BPTC19696.deinterleave_data_bits(x, repair_if_necessary=0))):
+                if not pat:
+                    try:
+                        if call_(bitarray(w_)).to01() != lm:
+                            s.violation(f"errorfree_decode_without_repair_wrong_when_the_switch_is_given_as:{form}", {"message": lm, "repair_switch": form})
+                    except Exception as e:  # noqa: BLE001
+                        s.violation(f"exception_repair_switch:{form}:" + exc_sig(e), {"message": lm}, repr(e))
+                    s.case(nontrivial=True, calls=1, outcome=form)
         s.done()
 
     rep.bounds = {
